@@ -59,6 +59,11 @@ def gen_cases(rng, pid, tier):
             cases.append({'stream': 'respell', 'ann': a2, 'val': v, 'ctx': G.CTX, 'obs': obs, 'grp': grp, 'twin': grp})
             if w is not None:
                 cases.append({'stream': 'respell', 'ann': a2, 'val': w, 'ctx': G.CTX, 'obs': obs, 'grp': grp, 'twin': grp + 1})
+        a3 = G.to_abc(rng, a)
+        if a3 is not None:          # PEP 585 spelling of the abstract collections: outside the claimed vocabulary, still must be sound
+            cases.append({'stream': 'abc-spelling', 'ann': a3, 'val': v, 'ctx': G.CTX, 'obs': 'avmt', 'grp': grp})
+            if w is not None:
+                cases.append({'stream': 'abc-spelling', 'ann': a3, 'val': w, 'ctx': G.CTX, 'obs': 'avmt', 'grp': grp})
         if rng.random() < 0.15:     # an arbitrary value: exercises the rejecting paths without any bias of `corrupt`
             cases.append({'stream': 'random-value', 'ann': a, 'val': rng.choice(G.SCALARS + G.CONTAINERS), 'ctx': G.CTX, 'obs': 'avmt', 'grp': grp})
     if P['bare']:
@@ -78,9 +83,56 @@ def coq_case(c, r):
     return f'eval_check {U.coq_ctx(c["ctx"])} {U.coq_ann(r["ann"])} {U.coq_val(r["val"])}'
 
 
+def named_stream(ck, want):
+    """named-tuple values (outside the model's value universe): fixed table judged on the implementation.
+    want='sound': a non-conforming one must be rejected; want='complete': a conforming one must be accepted"""
+    n = ck.run_impl('w_checker', [{'obs': 'named', 'size': 1}], shards=1)[0]['size']
+    res = ck.run_impl('w_checker', [{'obs': 'named', 'i': i} for i in range(n)], shards=1)
+    for i, r in enumerate(res):
+        if r is None or 'error' in r:
+            ck.oblige('impl-worker:named', 'correspondence', False, str(r))
+            continue
+        ck.note_case('named-%d' % i, nontrivial=True)
+        bad = None
+        if want == 'sound' and not r['conforms'] and r['out'] == 0:
+            bad = 'a named tuple that does not conform was accepted: ' + r['name']
+        if want == 'sound' and not r['conforms'] and r['out'] not in (0, 1):
+            bad = f'a non-conforming named tuple was rejected with {OUT_NAMES.get(r["out"])}: ' + r['name']
+        if want == 'complete' and r['conforms'] and r['out'] != 0:
+            bad = 'a conforming named tuple was rejected: ' + r['name']
+        if want == 'contain' and r['out'] in (4, 5):
+            bad = f'{r.get("exc")} escaped: ' + r['name']
+        if bad:
+            ck.violation(bad, {'obs': 'named', 'i': i, 'stream': 'named', 'name': r['name']}, stream='named', extra={'impl': r})
+    ck.coverage['named_tuple_table'] = {'cases': n, 'judged_as': want}
+
+
+def has_abc(a):
+    if not isinstance(a, list):
+        return False
+    if a and a[0] == 'gen' and a[1] == 'abc':
+        return True
+    return any(has_abc(x) for x in a if isinstance(x, list))
+
+
+def matcher(f, case):
+    m = f.get('matcher', {})
+    if m.get('id') == 'abc_spelled_generic':
+        return has_abc(case.get('reified', case).get('ann'))
+    return False
+
+
 def run(pid, tier, seed, replay, props, judge, extra_streams=None, rule_extra=''):
     ck = Check(pid, tier, seed, UNITS, MODEL, props)
     ck.prepare()
+
+    def still_fails(f):
+        w = f.get('witness')
+        if not w or f['status'] != 'open':
+            return False        # fixed entries are replayed through the corpus stream (nothing is suppressed)
+        r = ck.run_impl('w_checker', [w], shards=1)[0]
+        return bool(r) and r.get('out') == f.get('observed_out', 1)
+    ck.replay_known_findings(still_fails)
     P = PROFILE[pid]
     if replay is not None and replay.get('case', {}).get('obs', '').startswith('zoo'):
         cases = []
@@ -148,7 +200,7 @@ def run(pid, tier, seed, replay, props, judge, extra_streams=None, rule_extra=''
         by_grp[(c['grp'], c['stream'], k)] = info
         what = judge(ck, c, r, I, M, S, sup)
         if what:
-            ck.violation(what, dict(c, reified={'ann': r['ann'], 'val': r['val']}), stream=c['stream'],
+            ck.violation(what, dict(c, reified={'ann': r['ann'], 'val': r['val']}), stream=c['stream'], matcher=matcher,
                          extra={'impl': {'out': OUT_NAMES.get(I, I), 'exc': r.get('exc'), 'body_ran': r.get('body_ran')},
                                 'model_out': OUT_NAMES.get(M, M), 'spec': {0: 'Unspec', 1: 'Must', 2: 'MustNot'}[S], 'supported': bool(sup)})
         elif not corr:
